@@ -22,7 +22,7 @@ EXPLANATION = (
     "separate readlink of that path is the check-then-act defect F50 (reported as known finding, schedule in "
     "known_findings.d/C50.json); (c) unlock removes only when int(readlink(name)) == os.getpid() and then clears locked; "
     "isLocked releases what it acquired; the POSIX primitives are os.symlink/readlink/remove/kill and the Windows emulation "
-    "publishes the lock name only by rename from a unique temporary. Not decided: the interleaving semantics themselves."
+    "publishes the lock name only by rename from a unique temporary. Not decided: the interleaving semantics themselves. "
     "Every anchor function is also checked to be entered on every call (no memoising/wrapping decorator, duplicate definition or rebinding). "
 )
 ASSUMPTIONS = [
